@@ -225,6 +225,36 @@ def make_bigint(scn, r):
     return scn
 
 
+def concat_twins(n):
+    """pairs of distinct node ids (lo, hi) < n whose decimal numerals extend one another"""
+    out = []
+    for hi in range(n):
+        for lo in range(n):
+            a, b = str(lo), str(hi)
+            if lo != hi and len(b) > len(a) and b.startswith(a):
+                out.append(("pre", lo, hi, b[len(a):]))
+            if lo != hi and len(b) > len(a) and b.endswith(a):
+                out.append(("post", lo, hi, b[:len(b) - len(a)]))
+    return out
+
+
+def make_crowd(scn, r):
+    """many nodes (two-digit identifiers) and a timer-name alphabet in which different (node, name) pairs
+    are spelt with the same characters: ids lo and hi = lo.rest (or rest.lo), names N, rest.N, N.rest.
+    A timer's identity is the pair (node, name), not its spelling."""
+    cfg, prof = scn["cfg"], scn["profile"]
+    n = r.choice([11, 11, 12, 13])
+    cfg["initPos"] = (cfg["initPos"] + [[fbits(c) for c in lattice(r)] for _ in range(n)])[:n]
+    cfg["nNodes"] = n
+    base = r.choice(NAMES)
+    kind, lo, hi, rest = r.choice(concat_twins(n))
+    prof["names"] = [base, rest + base if kind == "pre" else base + rest, base + rest if kind == "pre" else rest + base]
+    prof["budget"] = prof.get("budget", 60) + 4 * n
+    if cfg["hasMob"] and cfg["duration"] is not None and cfg["duration"] > 4096:
+        cfg["duration"] = 4096
+    return scn
+
+
 def gen_scenario(seed, force_cfg=None, profile=None, drive=None):
     r = random.Random(stable_hash("scn", seed))
     cfg, geo_ref = gen_cfg(r, **(force_cfg or {}))
